@@ -129,7 +129,8 @@ pub fn case_real(rd: &mut Rd) -> R<String> {
                     seen2.lock().unwrap().push(buf[.. n].to_vec());
                     if after == 3 {
                         let _ = s.send_to(&buf[.. n], from);
-                    } else if i < replies2.len() {
+                    } else if i < replies2.len() && !replies2[i].is_empty() {
+                        // an empty reply stands for a request that gets no answer
                         let _ = s.send_to(&replies2[i], from);
                     }
                     i += 1;
